@@ -57,6 +57,7 @@ type sendInfo struct {
 	agentDst     int
 	agentDstName string
 	agentRecv    common.Address
+	agentRefund  common.Address
 }
 
 type updInfo struct {
@@ -305,7 +306,8 @@ func (w *world) opSend(op kernel.Op) {
 				si.agentRecv = ru.Eth
 				ccd.Receiver = lower(agentAddr)
 				ccd.ContractAddress = lower(agentAddr)
-				ccd.CallData = pack(agentABI, "send", dt.Addr, lower(ru.Eth), thirdName, fee)
+				ccd.CallData = pack(agentABI, "send", u.Eth, lower(ru.Eth), thirdName, fee)
+				si.agentRefund = u.Eth
 				si.receiver = agentAddr
 			} else {
 				si.call = callNone
